@@ -9,7 +9,7 @@ import (
 //zzv:bound M3 = same step: when the cycle raised the floor (stall), the request is strictly above the previous request and the floor strictly above the previous floor
 //zzv:bound M4 = same step: the fan's own minimum (GetMinPwm) is never lowered by a cycle
 //zzv:bound H = bounded model check: 2 (thorough 3) consecutive real cycles from a freshly constructed controller, direct algorithm, symbolic RPM averages and curve values per cycle: every request >= the initial minimum and >= every floor reached earlier
-//zzv:outside PWM maps with more than 2 distinct keys (thorough 6); histories are covered by the inductive step, the BMC harness only supplies reachable witnesses
+//zzv:outside PWM maps with more than 2 distinct keys (thorough 4); histories are covered by the inductive step, the BMC harness only supplies reachable witnesses
 //zzv:inductive ZZ_C02_Floor_Hwmon ZZ_C02_Floor_FileCmd
 
 func zzFloorObligations(e *zzEnv) {
